@@ -10,11 +10,11 @@ namespace LRing
 variable {α : Type}
 
 /-- the value component of the lifetime model IS the typed-ring model -/
-theorem push_t (l : LRing α) (x : α) : (l.push x).map (·.t) = l.t.push x := by
-  unfold push; cases l.t.push x <;> rfl
+theorem push_t (l : LRing α) (x : α) : (l.pushOrig x).map (·.t) = l.t.push x := by
+  unfold pushOrig; cases l.t.push x <;> rfl
 
-theorem pop_t (l : LRing α) : l.pop.map (·.t) = l.t.pop := by
-  unfold pop; cases l.t.pop <;> rfl
+theorem pop_t (l : LRing α) : l.popOrig.map (·.t) = l.t.popOrig := by
+  unfold popOrig; cases l.t.popOrig <;> rfl
 
 /-- every slot holds a living object (state after construction / resize / copy) -/
 def AllLive (l : LRing α) : Prop := l.live = List.replicate l.t.buf.length true
@@ -33,10 +33,10 @@ theorem set_replicate_self {β : Type} (n i : Nat) (a : β) :
 theorem mk'_allLive (dflt : α) (n : Nat) : AllLive (mk' dflt n) := by
   simp [AllLive, mk', TRing.mk']
 
-theorem push_allLive {l l' : LRing α} {x : α} (h : AllLive l) (e : l.push x = some l') :
+theorem push_allLive {l l' : LRing α} {x : α} (h : AllLive l) (e : l.pushOrig x = some l') :
     AllLive l' ∧ l'.overLive = l.overLive + 1 ∧ l'.deadDtor = l.deadDtor ∧
       l.t.push x = some l'.t := by
-  unfold push at e
+  unfold pushOrig at e
   cases ht : l.t.push x with
   | none => rw [ht] at e; cases e
   | some t' =>
@@ -60,28 +60,28 @@ theorem push_allLive {l l' : LRing α} {x : α} (h : AllLive l) (e : l.push x = 
       · cases hb
 
 /-- a run of pushes -/
-def pushAll : LRing α → List α → Option (LRing α)
+def pushAllOrig : LRing α → List α → Option (LRing α)
   | l, [] => some l
-  | l, x :: xs => (l.push x).bind fun l' => pushAll l' xs
+  | l, x :: xs => (l.pushOrig x).bind fun l' => pushAllOrig l' xs
 
 theorem pushAll_allLive : ∀ (xs : List α) (l : LRing α), AllLive l → l.t.r.WF →
     l.t.r.size.toNat ≤ l.t.buf.length →
-    ∃ l', pushAll l xs = some l' ∧ AllLive l' ∧ l'.overLive = l.overLive + xs.length ∧
+    ∃ l', pushAllOrig l xs = some l' ∧ AllLive l' ∧ l'.overLive = l.overLive + xs.length ∧
       l'.deadDtor = l.deadDtor
   | [], l, h, _, _ => ⟨l, rfl, h, rfl, rfl⟩
   | x :: xs, l, h, wf, hb => by
       have hlen : l.t.r.head.toNat < l.t.buf.length := by have := wf.1; omega
       have ht : l.t.push x = some ⟨ringMoveHeadOne l.t.r, l.t.buf.set l.t.r.head.toNat x⟩ := by
         simp [TRing.push, poke, hlen]
-      obtain ⟨l1, e1⟩ : ∃ l1, l.push x = some l1 := by
-        unfold push; rw [ht]; exact ⟨_, rfl⟩
+      obtain ⟨l1, e1⟩ : ∃ l1, l.pushOrig x = some l1 := by
+        unfold pushOrig; rw [ht]; exact ⟨_, rfl⟩
       obtain ⟨h1, ho, hd, ht1⟩ := push_allLive h e1
       rw [ht] at ht1
       have et : l1.t = ⟨ringMoveHeadOne l.t.r, l.t.buf.set l.t.r.head.toNat x⟩ :=
         (Option.some.inj ht1).symm
       obtain ⟨l2, e2, h2, ho2, hd2⟩ := pushAll_allLive xs l1 h1
         (by rw [et]; exact wf_moveHeadOne wf) (by rw [et]; simpa using hb)
-      exact ⟨l2, by simp [pushAll, e1, e2], h2, by rw [ho2, ho, List.length_cons]; omega,
+      exact ⟨l2, by simp [pushAllOrig, e1, e2], h2, by rw [ho2, ho, List.length_cons]; omega,
         by rw [hd2, hd]⟩
 
 theorem deadCount_pos {l : List Bool} (h : false ∈ l) : 0 < deadCount l :=
@@ -89,17 +89,17 @@ theorem deadCount_pos {l : List Bool} (h : false ∈ l) : 0 < deadCount l :=
 
 /-- whatever the state: the slot a `pop` has destroyed is destroyed once more by
 `~unbounded_array` unless a push re-constructs it first -/
-theorem pop_destroy {l l' : LRing α} (e : l.pop = some l') (hlen : l.live.length = l.t.buf.length) :
+theorem pop_destroy {l l' : LRing α} (e : l.popOrig = some l') (hlen : l.live.length = l.t.buf.length) :
     l.deadDtor + 1 ≤ l'.destroy.deadDtor := by
-  unfold pop at e
-  cases ht : l.t.pop with
+  unfold popOrig at e
+  cases ht : l.t.popOrig with
   | none => rw [ht] at e; cases e
   | some t' =>
     rw [ht] at e
     simp only [Option.some.injEq] at e
     subst e
     have hlt : l.t.r.tail.toNat < l.t.buf.length := by
-      unfold TRing.pop at ht
+      unfold TRing.popOrig at ht
       split at ht
       · assumption
       · cases ht
@@ -123,13 +123,13 @@ theorem mk'_storedLive (dflt : α) (n : Nat) : StoredLive (mk' dflt n) := by
   simp [mk', TRing.mk', ringInit, RingHead.cnt, cntN] at hi
 
 theorem push_storedLive {l l' : LRing α} {q : List α} {x : α} (ha : Abs l.t.r l.t.buf q)
-    (hroom : q.length < l.t.r.size.toNat - 1) (hs : StoredLive l) (e : l.push x = some l') :
+    (hroom : q.length < l.t.r.size.toNat - 1) (hs : StoredLive l) (e : l.pushOrig x = some l') :
     StoredLive l' := by
   obtain ⟨⟨h1, h2⟩, hb, hl, -⟩ := ha
   have hlen : l.t.r.head.toNat < l.t.buf.length := by omega
   have ht : l.t.push x = some ⟨ringMoveHeadOne l.t.r, l.t.buf.set l.t.r.head.toNat x⟩ := by
     simp [TRing.push, poke, hlen]
-  unfold push at e
+  unfold pushOrig at e
   rw [ht] at e
   simp only [Option.some.injEq] at e
   subst e
@@ -148,12 +148,12 @@ theorem push_storedLive {l l' : LRing α} {q : List α} {x : α} (ha : Abs l.t.r
     rw [hie, slot_cnt_head h1 h2, List.getElem?_set_self (by omega)]
 
 theorem pop_storedLive {l l' : LRing α} {x : α} {q : List α} (ha : Abs l.t.r l.t.buf (x :: q))
-    (hs : StoredLive l) (e : l.pop = some l') :
+    (hs : StoredLive l) (e : l.popOrig = some l') :
     StoredLive l' ∧ l.tailLive = true ∧ l'.deadDtor = l.deadDtor := by
   obtain ⟨⟨h1, h2⟩, hb, hl, -⟩ := ha
   have hlen : l.t.r.tail.toNat < l.t.buf.length := by omega
-  have ht : l.t.pop = some ⟨ringMoveTailOne l.t.r, l.t.buf⟩ := by simp [TRing.pop, hlen]
-  unfold pop at e
+  have ht : l.t.popOrig = some ⟨ringMoveTailOne l.t.r, l.t.buf⟩ := by simp [TRing.popOrig, hlen]
+  unfold popOrig at e
   rw [ht] at e
   simp only [Option.some.injEq] at e
   subst e
@@ -221,20 +221,20 @@ inductive TOp (α : Type) where
   | push (x : α)
   | pop
 
-def stepT {α : Type} (t : TRing α) : TOp α → Option (TRing α × Option α)
+def stepT {α : Type} (d : α) (t : TRing α) : TOp α → Option (TRing α × Option α)
   | .push x => (t.push x).map fun t' => (t', none)
   | .pop =>
     match t.tail with
     | none => none
-    | some v => t.pop.map fun t' => (t', some v)
+    | some v => (t.pop d).map fun t' => (t', some v)
 
-def runT {α : Type} : TRing α → List (TOp α) → Option (TRing α × List (Option α))
+def runT {α : Type} (d : α) : TRing α → List (TOp α) → Option (TRing α × List (Option α))
   | t, [] => some (t, [])
   | t, op :: ops =>
-    match stepT t op with
+    match stepT d t op with
     | none => none
     | some (t', o) =>
-      match runT t' ops with
+      match runT d t' ops with
       | none => none
       | some (t'', os) => some (t'', o :: os)
 
@@ -267,10 +267,10 @@ def deliveredT {α : Type} : List (Option α) → List α
   | some v :: os => v :: deliveredT os
   | none :: os => deliveredT os
 
-theorem runT_refines {α : Type} : ∀ (ops : List (TOp α)) {t : TRing α} {q q' : List α}
+theorem runT_refines {α : Type} (d : α) : ∀ (ops : List (TOp α)) {t : TRing α} {q q' : List α}
     {outs : List (Option α)}, Abs t.r t.buf q →
     runSpecT (t.r.size.toNat - 1) q ops = some (q', outs) →
-    ∃ t', runT t ops = some (t', outs) ∧ t'.r.size = t.r.size ∧ Abs t'.r t'.buf q'
+    ∃ t', runT d t ops = some (t', outs) ∧ t'.r.size = t.r.size ∧ Abs t'.r t'.buf q'
   | [], t, q, q', outs, h, hs => by
       obtain ⟨rfl, rfl⟩ : q = q' ∧ [] = outs := by simpa [runSpecT] using hs
       exact ⟨t, rfl, rfl, h⟩
@@ -283,7 +283,7 @@ theorem runT_refines {α : Type} : ∀ (ops : List (TOp α)) {t : TRing α} {q q
         · cases hs
         · rename_i q2 os e2
           obtain ⟨rfl, rfl⟩ : q2 = q' ∧ o :: os = outs := by simpa using hs
-          have step : ∃ t1, stepT t op = some (t1, o) ∧ t1.r.size = t.r.size ∧ Abs t1.r t1.buf q1 := by
+          have step : ∃ t1, stepT d t op = some (t1, o) ∧ t1.r.size = t.r.size ∧ Abs t1.r t1.buf q1 := by
             cases op with
             | push x =>
               simp only [specT] at e
@@ -298,11 +298,11 @@ theorem runT_refines {α : Type} : ∀ (ops : List (TOp α)) {t : TRing α} {q q
               | nil => simp [specT] at e
               | cons y q0 =>
                 obtain ⟨rfl, rfl⟩ : q0 = q1 ∧ some y = o := by simpa [specT] using e
-                obtain ⟨t1, e1, hs1, h1⟩ := TRing.pop_abs h
+                obtain ⟨t1, e1, hs1, h1⟩ := TRing.pop_abs d h
                 exact ⟨t1, by simp [stepT, TRing.tail_abs h, e1], hs1, h1⟩
           obtain ⟨t1, e1, hs1, h1⟩ := step
           rw [← hs1] at e2
-          obtain ⟨t2, e3, hs2, h2⟩ := runT_refines ops h1 e2
+          obtain ⟨t2, e3, hs2, h2⟩ := runT_refines d ops h1 e2
           exact ⟨t2, by simp [runT, e1, e3], hs2.trans hs1, h2⟩
 
 theorem specT_conserves {α : Type} (cap : Nat) : ∀ (ops : List (TOp α)) {q q' : List α}
